@@ -50,6 +50,8 @@ FIXED = {
     "ident-digit": '(module\n  (func $f (param $a i32) (result i32)\n    (local $7 i32)\n    local.get $7)\n)\n',
     "elem-index-64": "(module\n  (table 1 funcref)\n" + "".join("  (func $f%d)\n" % i for i in range(66)) + "  (elem (i32.const 0) $f65)\n)\n",
     "export-order": '(module\n  (memory 1)\n  (func $f (export "f"))\n  (export "memory" (memory 0))\n)\n',
+    "label-shadow-block": '(module\n  (func $f (export "f") (param $p i32) (result i32)\n    block $L\n      block $L\n        local.get $p\n        br_if $L\n        br $L\n      end\n      i32.const 7\n      return\n    end\n    i32.const 9\n  )\n)\n',
+    "label-shadow-loop-if": '(module\n  (func $f (export "f") (param $p i32) (result i32)\n    block $L\n      loop $L\n        local.get $p\n        if $L\n          br $L\n        end\n        block $M\n          block $L\n            local.get $p\n            br_table $L $M $L\n          end\n        end\n        br 1\n      end\n    end\n    i32.const 3\n  )\n)\n',
 }
 
 
